@@ -24,7 +24,8 @@ class Subscriptions(FileWriteable):
 
     @property
     def empty(self) -> bool:
-        return not self._subscribed
+        # an empty set is not the same as the default set
+        return False
 
     @property
     def subscribed(self) -> Sequence[str]:
@@ -58,7 +59,9 @@ class Subscriptions(FileWriteable):
 
     @classmethod
     def get_default(cls, path: str) -> Self:
-        return cls(path)
+        ret = cls(path)
+        ret._subscribed['INBOX'] = None
+        return ret
 
     @classmethod
     def open(cls, path: str, fp: IO[str]) -> Self:
@@ -66,7 +69,9 @@ class Subscriptions(FileWriteable):
 
     def read(self, fp: IO[str]) -> None:
         for line in fp:
-            self.add(line.rstrip())
+            folder = line.rstrip('\r\n')
+            if folder:
+                self.add(folder)
 
     def write(self, fp: IO[str]) -> None:
         for sub in self._subscribed:
